@@ -227,6 +227,8 @@ pub fn run(a: &Args) {
                 }
             }
             replay_hist(&mut r, m, &descs, c);
+        } else if t[0] == "gdtload" {
+            crate::c12load::run_gdt(&mut r);
         } else {
             for p in ["user", "system", "alternating"] {
                 fill_big(&mut r, p);
@@ -245,6 +247,7 @@ pub fn run(a: &Args) {
         for p in ["user", "system", "alternating"] {
             fill_big(&mut r, p);
         }
+        crate::c12load::run_gdt(&mut r);
     }
     r.evals = 0;
     r.nontrivial = r.transitions;
